@@ -1431,9 +1431,19 @@ func genEvents(r *rand.Rand, id string, size int, total int) []string {
 				g.add("evflush %d", q)
 			}
 		}
+		if g.pick(3) == 0 {
+			// a store built with its public constructor and the default bus: its legacy channel API must
+			// hear what its bus carries
+			g.add("enilbus %d", peers[0])
+		}
 		return g.lines
 	}
 	g.add("scn %s kind=none acl=* peers=", id)
+	if g.pick(6) == 0 {
+		// the legacy global channel, a second caller after the first one has gone
+		g.add("eglobal")
+		return g.lines
+	}
 	if g.pick(4) == 0 {
 		// a lagging legacy subscriber unsubscribes while an emitter waits on its full subscription
 		g.add("ewedge %d", 6+g.pick(5))
